@@ -24,7 +24,7 @@ from hypothesis import strategies as st
 
 from vlib import gen, findings
 from vlib.build import build_obs
-from vlib.core import Sub, Violation, Skip, require
+from vlib.core import Sub, Violation, Skip, require, spec_hash
 
 PROPERTY = 'C12'
 LEVEL = 'exploration'
@@ -198,10 +198,19 @@ def pobs_case(draw, tier):
             differ = 'excluded'
         else:
             differ = how
+            if how == 'with_cov':
+                # a member that also depends on a covariance input: the pobs format has no place for it
+                cp = draw(gen.cov_part(draw(gen.cov_pool(1)), 1.0))
+                if cp:
+                    obs[k] = {'chains': obs[k]['chains'], 'cov': cp}
+                else:
+                    differ = None
             c = dict(obs[k]['chains'][j])
             il = list(c['idl'])
             step = il[1] - il[0]
-            if how == 'shift':
+            if how == 'with_cov':
+                pass
+            elif how == 'shift':
                 d = step * draw(st.integers(1, 3))
                 c['idl'] = [x + d for x in il]
             elif how == 'shorter' and len(il) > 5:
@@ -213,7 +222,15 @@ def pobs_case(draw, tier):
                 c['name'] = e + '|zz'
             if len(c['idl']) != len(il):
                 c['data'] = {'kind': 'white', 'seed': 7 + len(c['idl']), 'mean': 0.5, 'sigma': 1.0}
-            obs[k] = {'chains': [c if i == j else cc for i, cc in enumerate(obs[k]['chains'])], 'cov': []}
+            if how != 'with_cov':
+                obs[k] = {'chains': [c if i == j else cc for i, cc in enumerate(obs[k]['chains'])], 'cov': []}
+    if differ is None and draw(st.integers(0, 7)) == 0:
+        # a member that also depends on a covariance input: the pobs format has no place for it (refused, never dropped)
+        cp = draw(gen.cov_part(draw(gen.cov_pool(1)), 1.0))
+        if cp:
+            k = draw(st.integers(0, n - 1))
+            obs[k] = {'chains': obs[k]['chains'], 'cov': cp}
+            differ = 'with_cov'
     spec = {'obs': obs, 'differ': differ}
     spec.update(draw(io_options(obs, POBS_MODES, open_ids, pobs=True)))
     if differ == 'excluded':
@@ -375,8 +392,16 @@ def compare_analysis(ol, rl, labs):
 
 
 # ---------------------------------------------------------------------------------------------- dobs oracle
+STEMS = ['f', 'f', 'obs_b3.85_k0.1366', 'run2.v1']
+
+
+def _stem(spec):
+    # file names whose last component contains dots (a pure function of the spec)
+    return STEMS[int(spec_hash({k: v for k, v in spec.items() if k != 'excluded'}), 16) % len(STEMS)]
+
+
 def _fname(d, spec):
-    return os.path.join(d, 'f' + spec['ext'])
+    return os.path.join(d, _stem(spec) + spec['ext'])
 
 
 def dobs_roundtrip(ol, spec, d):
@@ -396,7 +421,7 @@ def dobs_roundtrip(ol, spec, d):
         gz = tr == 'gz'
         dio.write_dobs(ol, _fname(d, spec), 'obsname', gz=gz, **kw)
         files = sorted(os.listdir(d))
-        require(files == ['f.xml.gz' if gz else 'f.xml'], 'write_dobs(gz=%r) created %r' % (gz, files))
+        require(files == [_stem(spec) + ('.xml.gz' if gz else '.xml')], 'write_dobs(%r, gz=%r) created %r' % (_stem(spec) + spec['ext'], gz, files))
         res = dio.read_dobs(_fname(d, spec), gz=gz, **rkw)
     if spec['full']:
         require(isinstance(res, dict) and 'obsdata' in res, 'full_output=True did not return a dictionary with obsdata')
@@ -487,7 +512,7 @@ def pobs_oracle(spec):
                 return {'nt': True, 'cls': sorted(labs)}
             raise Violation('write_pobs raised %s: %s on a list of primary observables with identical chains' % (type(e).__name__, e))
         files = sorted(os.listdir(d))
-        require(files == ['f.xml.gz' if gz else 'f.xml'], 'write_pobs(gz=%r) created %r' % (gz, files))
+        require(files == [_stem(spec) + ('.xml.gz' if gz else '.xml')], 'write_pobs(%r, gz=%r) created %r' % (_stem(spec) + spec['ext'], gz, files))
         multi = len(set(v.split('|')[0] for v in (nm[n] for n in names0))) > 1
         try:
             res = dio.read_pobs(_fname(d, spec), full_output=bool(spec['full']), gz=gz, separator_insertion=spec['mode'])
@@ -507,6 +532,8 @@ def pobs_oracle(spec):
         nmi = {n: nm[n] for n in mc_chains(o)}
         restored = restored and all(k == v for k, v in nmi.items())
         same_ens = same_ens and all(k.split('|')[0] == v.split('|')[0] for k, v in nmi.items())
+        require(not o.covobs, 'observable %d of %d depends on the covariance inputs %r; write_pobs accepted it and read_pobs returns it without them'
+                % (i, len(ol), sorted(o.covobs)))
         compare(o, r, 'observable %d of %d' % (i, len(ol)), nmi, exact_value=False, check_cov=False)
         require(not r.covobs, 'observable %d: covariance inputs appear in a pobs import' % i, sorted(r.covobs))
     labs.add('names:restored' if restored else 'names:changed_same_ensembles' if same_ens else 'names:changed')
